@@ -6,6 +6,7 @@ import (
 	"strconv"
 	"strings"
 	"sync/atomic"
+	"unicode/utf8"
 
 	"github.com/tobgu/qframe"
 	"github.com/tobgu/qframe/types"
@@ -500,8 +501,16 @@ func GenInstrs(t *rapid.T, tab Table, max int) []Instr {
 			in.Dst = rapid.SampledFrom(newNames).Draw(t, "dstnew")
 		}
 		src := cur.Cols[rapid.IntRange(0, len(cur.Cols)-1).Draw(t, "src1")]
-		if rapid.IntRange(0, 3).Draw(t, "dsteqsrc") == 0 {
+		switch rapid.IntRange(0, 7).Draw(t, "dsteqsrc") {
+		case 0, 1:
 			in.Dst = src.Name
+		case 2:
+			// a destination that differs from the source in letter case only is another column
+			if up := strings.ToUpper(src.Name); up != src.Name && utf8.ValidString(up) && legalName(up) {
+				in.Dst = up
+			} else if lo := strings.ToLower(src.Name); lo != src.Name && utf8.ValidString(lo) && legalName(lo) {
+				in.Dst = lo
+			}
 		}
 		switch rapid.IntRange(0, 10).Draw(t, "instrkind") {
 		case 10:
